@@ -13,6 +13,8 @@ def spec(tier):
         XH("H3.sync", F, "sync", 150 if q else 900,
            what="real didOpen/didSave/didClose/didChange bodies with nondeterministic parse/diagnostics/apply_change outcome: no response to notifications, emitted ids are received ids"),
     ]
+    obs += parts("J.payloads", "C09_positions.py", "opt_sweep", 8, 250 if q else 2500, path_timeout=120,
+                 what="serialisability of real handler results: the C09 option-set sweep (all columns x 9 positional methods on 4 documents under 6 option sets incl. diagnostics disabled + code actions): every result must be JSON-serialisable - a non-serialisable result makes write_response raise outside handle()'s try block and stops the server")
     return dict(
         obligations=obs,
         functions=["LangServer.handle", "LangServer.run", "LangServer.serve_default", "LangServer.serve_exit",
